@@ -498,6 +498,10 @@ void expect_(TestReporter* test_reporter, const char *function, const char *test
             break;
         }
     }
+    if (expectation->time_to_live <= 0) {
+        /* times(0): the function must not be called at all */
+        expectation->time_to_live = -UNLIMITED_TIME_TO_LIVE;
+    }
     cgreen_vector_add(global_expectation_queue, expectation);
 }
 
